@@ -520,6 +520,98 @@ class Repo:
         return self.fold(r[0].mod, r[1])
 
 
+# ---------------------------------------------------------------- digest-keyed reuse of the loaded, normalised program
+CACHE_INFO = {"state": "off", "digest": None}
+
+
+def _digest(root, pkg="bromelia"):
+    """sha256 over every byte the loader and the normaliser consult: all .py files of the analysed package (path + content),
+    every engine source under bsa/ (not the per-property checkers, which run after loading), the frozen inventory, and the
+    BSA_* switches.  Identical digest = identical normal form, whatever directory the tree lives in."""
+    import hashlib
+    h = hashlib.sha256()
+    h.update(b"v1\0" + (".".join(map(str, __import__("sys").version_info[:3]))).encode())
+    pkgdir = os.path.join(os.path.abspath(root), pkg)
+    for dp, dn, fn in sorted(os.walk(pkgdir)):
+        dn[:] = sorted(d for d in dn if d != "__pycache__")
+        for f in sorted(fn):
+            if f.endswith(".py"):
+                p = os.path.join(dp, f)
+                h.update(os.path.relpath(p, pkgdir).encode() + b"\0")
+                h.update(open(p, "rb").read() + b"\0")
+    here = os.path.dirname(os.path.abspath(__file__))
+    for f in sorted(os.listdir(here)):
+        if f.endswith(".py"):
+            h.update(f.encode() + b"\0" + open(os.path.join(here, f), "rb").read() + b"\0")
+    inv = os.path.join(os.path.dirname(here), "reference", "inventory.json")
+    if os.path.exists(inv):
+        h.update(open(inv, "rb").read())
+    for k in sorted(os.environ):
+        if k.startswith("BSA_") and k != "BSA_CACHE_DIR":
+            h.update(f"{k}={os.environ[k]}\0".encode())
+    return h.hexdigest()
+
+
+def load_repo(root):
+    """Repo(root), reusing a previous run's loaded+normalised program when (and only when) every consulted byte is the same.
+    The sources are read and hashed on every run; nothing is reused across different source text.  BSA_CACHE=0 disables."""
+    import pickle
+    import sys
+    import tempfile
+    import zlib
+    if os.environ.get("BSA_CACHE", "1") == "0":
+        CACHE_INFO.update(state="disabled", digest=None)
+        return Repo(root)
+    cdir = os.environ.get("BSA_CACHE_DIR") or os.path.join(os.path.dirname(os.path.dirname(os.path.abspath(__file__))), ".cache")
+    try:
+        dg = _digest(root)
+    except OSError:
+        return Repo(root)
+    path = os.path.join(cdir, dg + ".pkl")
+    from . import sym as _sym
+    lim = sys.getrecursionlimit()
+    sys.setrecursionlimit(max(lim, 200000))
+    try:
+        if os.path.exists(path):
+            try:
+                with open(path, "rb") as f:
+                    repo, sentinels = pickle.loads(zlib.decompress(f.read()))
+                repo.root = os.path.abspath(root)
+                for m in repo.mods.values():
+                    m.path = os.path.join(repo.root, m.rel)
+                repo.class_by_node = {id(ci.node): ci for ci in repo.classes}
+                repo._helper_width_cache = {}
+                _sym.SENTINELS.clear()
+                _sym.SENTINELS.update(sentinels)
+                try:
+                    os.utime(path)
+                except OSError:
+                    pass
+                CACHE_INFO.update(state="reused (identical digest of all consulted sources)", digest=dg)
+                return repo
+            except Exception:   # noqa  - unreadable entry: rebuild
+                pass
+        repo = Repo(root)
+        CACHE_INFO.update(state="computed", digest=dg)
+        try:
+            os.makedirs(cdir, exist_ok=True)
+            fd, tmp = tempfile.mkstemp(dir=cdir, suffix=".tmp")
+            with os.fdopen(fd, "wb") as f:
+                f.write(zlib.compress(pickle.dumps((repo, set(_sym.SENTINELS)), protocol=pickle.HIGHEST_PROTOCOL), 1))
+            os.replace(tmp, path)
+            ents = sorted((os.path.join(cdir, x) for x in os.listdir(cdir) if x.endswith(".pkl")), key=lambda x: os.path.getmtime(x))
+            for old in ents[:-int(os.environ.get("BSA_CACHE_KEEP", "1500"))]:
+                try:
+                    os.remove(old)
+                except OSError:
+                    pass
+        except Exception:   # noqa  - a cache that cannot be written is only slower
+            pass
+        return repo
+    finally:
+        sys.setrecursionlimit(lim)
+
+
 def norm_stmt(node):
     """Normalised statement text used to key findings (never line numbers)."""
     try:
